@@ -32,7 +32,8 @@ fn check_fe(factor: u64, numerator: u64, denominator: u64, a: &mut Acc) {
     let exp = ref_fake_exp(factor, numerator, denominator);
     let exp128 = exp.as_ref().and_then(|e| e.to_u128());
     let case = json!({"fn":"fake_exponential","factor":factor,"numerator":numerator,"denominator":denominator});
-    let _g = guard("fake_exponential", || case.clone());
+    let c2 = case.clone();
+    let _g = guard("fake_exponential", move || c2);
     let got = catch(|| fake_exponential(factor, numerator, denominator));
     drop(_g);
     a.distinct(&("fe", exp128));
@@ -51,7 +52,8 @@ fn check_price(excess: u64, prague: bool, a: &mut Acc) {
     let exp = ref_fake_exp(1, excess, frac);
     let exp128 = exp.as_ref().and_then(|e| e.to_u128());
     let case = json!({"fn":"calc_blob_gasprice","excess":excess,"prague":prague});
-    let _g = guard("calc_blob_gasprice", || case.clone());
+    let c2 = case.clone();
+    let _g = guard("calc_blob_gasprice", move || c2);
     let got = catch(|| calc_blob_gasprice(excess, prague));
     drop(_g);
     a.distinct(&("price", prague, exp128));
